@@ -162,7 +162,7 @@ func c14Events(cfg c14Cfg) []string {
 		}
 	}
 	ev = append(ev, "parent-resync")
-	for _, role := range []string{"owned-p1", "owned-p2", "owned-p3", "wrong-uid", "wrong-kind", "wrong-group", "foreign-owned", "orphan-match", "orphan-nomatch", "orphan-unlabelled", "orphan-deleting", "owned-p1-other-ns", "owned-p1-deleting", "owned-p1-other-version"} {
+	for _, role := range []string{"owned-p1", "owned-p2", "owned-p3", "owned-p5", "wrong-uid", "wrong-kind", "wrong-group", "foreign-owned", "orphan-match", "orphan-nomatch", "orphan-unlabelled", "orphan-deleting", "owned-p1-other-ns", "owned-p1-deleting", "owned-p1-other-version"} {
 		for _, e := range []string{"add", "update", "delete", "tombstone", "resync"} {
 			ev = append(ev, "child:"+role+":"+e)
 		}
@@ -310,6 +310,11 @@ func c14Run(c c14Case) []mc.Finding {
 			case "owned-p3":
 				kit.Owners(o, kit.OwnerRef(x.pk, "p3", "uid-p3", true))
 				wake = "p3"
+			case "owned-p5":
+				// p5 is being deleted in the foreground (garbage-collector finalizer next to ours): its children going
+				// away is exactly what its finalize hook is waiting for
+				kit.Owners(o, kit.OwnerRef(x.pk, "p5", "uid-p5", true))
+				wake = "p5"
 			case "wrong-uid":
 				kit.Owners(o, kit.OwnerRef(x.pk, "p1", "uid-stale", true))
 			case "wrong-kind":
